@@ -56,7 +56,7 @@ for p in props:
 
 manifest = {
     "version": 1,
-    "setup_cmd": "/venv/bin/python -c 'import hypothesis' 2>/dev/null || /venv/bin/pip install --no-index --find-links /opt/veriftools/wheels hypothesis",
+    "setup_cmd": "(/venv/bin/python -c 'import hypothesis' 2>/dev/null || /venv/bin/pip install --no-index --find-links /opt/veriftools/wheels hypothesis) && (test -d /verif/.deps/atheris || /venv/bin/pip install -q --no-index --find-links /opt/veriftools/wheels --target /verif/.deps atheris || true)",
     "hooks": {
         "guard": "JOB_SHOP_LIB_VERIF",
         "enable": "no hooks needed: every property is observed through the public API; the guard variable is unused",
@@ -70,6 +70,12 @@ manifest = {
             "path": "jsverif/",
             "serves_properties": [c["property_id"] for c in checks],
             "kind_free_text": "Hypothesis strategies + independent reference model + runner (seeds, tiers, 16 workers, shrinking, replay, evidence)",
+        },
+        {
+            "name": "jsverif-fuzz",
+            "path": "jsverif/fuzz.py",
+            "serves_properties": ["C01", "C02", "C05", "C06", "C07"],
+            "kind_free_text": "atheris/libFuzzer coverage-guided campaign over the same plain-data cases and oracles (thorough tier only)",
         }
     ],
     "checks": checks,
